@@ -745,21 +745,30 @@ class PGMCompiler:
 
         # Convert points if G-Code commands
         args = [self._format_args(x, y, z, f) for (x, y, z, f) in zip(x_gc, y_gc, z_gc, f_gc)]
-        for (arg, s) in itertools.zip_longest(args, s_gc):
+        # printed positions as numbers, so that '-0.000' and '0.000' are the same position
+        coords = [tuple(float(f'{v:.{self.output_digits}f}') for v in p) for p in zip(x_gc, y_gc, z_gc)]
+        prev_coord = None
+        for (arg, coord, s) in itertools.zip_longest(args, coords, s_gc):
             if s == 0 and self._shutter_on is True:
                 self.instruction('\n')
                 self.dwell(self.short_pause)
                 self.shutter('OFF')
                 self.dwell(self.long_pause)
                 self.instruction('\n')
+                # the shutter change coincides with a displacement: the move must not be dropped
+                if coord != prev_coord:
+                    self._instructions.append(f'G1 {arg}\n')
             elif s == 1 and self._shutter_on is False:
                 self.instruction('\n')
                 self.dwell(self.short_pause)
                 self.shutter('ON')
                 self.dwell(self.long_pause)
                 self.instruction('\n')
+                if coord != prev_coord:
+                    self._instructions.append(f'G1 {arg}\n')
             else:
                 self._instructions.append(f'G1 {arg}\n')
+            prev_coord = coord
         self.dwell(self.long_pause)
         self.instruction('\n')
 
